@@ -183,7 +183,11 @@ def main():
         chk.evaluated()
         chk.distinct(("val", json.dumps(desc, sort_keys=True)[:200]))
         short = repr(v)[:80]
-        d_impl = brine.dumpable(v)
+        try:
+            d_impl = brine.dumpable(v)
+        except Exception as ex:
+            chk.violation("dumpable-raised", "C04 dumpable(%s) raised %s: %s" % (short, type(ex).__name__, ex), {"desc": desc})
+            continue
         if d_impl != r["dumpable"]:
             chk.violation("dumpable:%s" % desc["t"], "C04 dumpable(%s) is %s, the format says %s" % (short, d_impl, r["dumpable"]),
                           {"desc": desc})
@@ -231,7 +235,11 @@ def main():
         for _ in range(1500 if not chk.thorough else 20000):
             strings.append(bytes(rnd.choice(alphabet) for _ in range(ln)))
     for (v, desc) in vals[:1500]:
-        if brine.dumpable(v):
+        try:
+            dv = brine.dumpable(v)
+        except Exception:
+            dv = False
+        if dv:
             try:
                 b = bytearray(brine.dump(v))
             except Exception:
